@@ -89,7 +89,28 @@ func ruleMemo(c *Ctx) {
 							vals = append(vals, r)
 						}
 					}
-					for _, v := range vals {
+					for vi, v := range vals {
+						// a result that merges several paths (a phi): only the edges that can come from the
+						// store matter - on the other paths (a cache hit) nothing was stored
+						if ph, ok := v.(*ssa.Phi); ok {
+							var onPath []ssa.Value
+							for i, e := range ph.Edges {
+								pred := ph.Block().Preds[i]
+								if pred == b || reach[pred] {
+									onPath = append(onPath, e)
+								}
+							}
+							allSame := len(onPath) > 0
+							for _, e := range onPath {
+								if !memoSame(e, comps) {
+									allSame = false
+								}
+							}
+							if allSame {
+								vals[vi] = onPath[0]
+								continue
+							}
+						}
 						if !memoSame(v, comps) {
 							bad = "result " + v.Name() + " of the return at " + c.relPos(ret.Pos()) + " is not the value that was cached"
 						}
